@@ -2,7 +2,7 @@
 
 (a) Codec: every message set of up to three messages over {bundle PDU,
     transfer segment, transfer end, padding message} x payload lengths
-    {0,1,255,256,4095} x hint lists of 0-2 hints, three-way round trip with an
+    {0,1,255,256,4095} x hint lists of 0-3 hints (repeated hints included), three-way round trip with an
     independent BTP-U codec (declared lengths = actual lengths).
 (b) Sizing: bundle length x MTU grid on the real send path (D-Bus call ->
     queue -> frames on a virtual packet socket).
@@ -130,7 +130,9 @@ def run_codec(params, known):
     keys = set()
     samples = []
     lengths = [0, 1, 255, 256, 4095]
-    hint_lists = [(), ((0, b'\x00\x00\x01\x00'),), ((0, b'\x00\x00\x01\x00'), (5, b'')), ((3, b'x' * 255), (9, b'y'))]
+    hint_lists = [(), ((0, b'\x00\x00\x01\x00'),), ((0, b'\x00\x00\x01\x00'), (5, b'')), ((3, b'x' * 255), (9, b'y')),
+                  # the same hint more than once (equal first and last, equal neighbours)
+                  ((7, b'ab'), (7, b'ab')), ((7, b'ab'), (8, b''), (7, b'ab')), ((8, b''), (7, b'ab'), (7, b'ab'))]
 
     def viol(kind, detail, case):
         if kind in kinds:
@@ -460,8 +462,87 @@ def run_reassembly(params, known):
     return dict(name=params['name'], evaluations=count, nontrivial_keys=sorted(keys), violations=violations, known=[], samples=samples)
 
 
+def run_pop_histories(params, known):
+    '''Receive / pop histories: three bundles (each in two segments, in order or reversed) arrive
+    one after the other; the user pops any announced and not yet popped bundle at any point.
+    Every interleaving of the three completions with the three pops: each announcement carries a
+    fresh id, the queue listing is exactly announced minus popped, and popping an id returns the
+    bundle that was announced under it.'''
+    violations = []
+    kinds = set()
+    count = 0
+    keys = set()
+
+    def viol(kind, sig, detail, case):
+        key = (kind, tuple(sorted(sig.items())))
+        if key in kinds:
+            return
+        kinds.add(key)
+        v = Violation(PROP, 'receive-queue', kind, sig, '%r: %s' % (case, detail)).as_dict()
+        v['case'] = case
+        violations.append(v)
+    bundles = [bytes(range(0x41 + 8 * k, 0x45 + 8 * k)) for k in range(3)]
+
+    def histories(done, popped, trail):
+        # done: number of bundles completed; popped: tuple of popped indices
+        if done == 3 and len(popped) == 3:
+            yield list(trail)
+            return
+        if done < 3:
+            yield from histories(done + 1, popped, trail + [('rx', done)])
+        for k in range(done):
+            if k not in popped:
+                yield from histories(done, popped + (k,), trail + [('pop', k)])
+    for reverse in (False, True):
+        for hist in histories(0, (), []):
+            count += 1
+            case = dict(history=['%s%d' % h for h in hist], segments_reversed=reverse)
+            world = BtpuWorld(dict(role='R'))
+            ids = {}
+            seen_sigs = 0
+            ok = True
+            for (op, k) in hist:
+                if op == 'rx':
+                    data = bundles[k]
+                    frames = [enc_transfer(M_SEG, 10 + k, 0, data[0:2], hints=((0, struct.pack('!I', len(data))),)),
+                              enc_transfer(M_END, 10 + k, 1, data[2:4])]
+                    for sdu in (reversed(frames) if reverse else frames):
+                        world.activate(None)
+                        world.net.inject(IFNAME, frame_for(sdu))
+                        world.run_all()
+                    sigs = [s for s in world.signals if s[0] == 'recv_bundle_finished']
+                    if len(sigs) != seen_sigs + 1:
+                        viol('completion-not-announced-once', dict(), 'signals %r' % (sigs[seen_sigs:],), case)
+                        ok = False
+                        break
+                    seen_sigs = len(sigs)
+                    bid = sigs[-1][1]
+                    if bid in ids.values():
+                        viol('announced-id-reused', dict(), 'id %r announced for bundle %d is still held by another bundle' % (bid, k), case)
+                        ok = False
+                        break
+                    ids[k] = bid
+                else:
+                    res = world.call('recv_bundle_pop_data', ids[k])
+                    if res[0] != 'ok' or bytes(res[1]) != bundles[k]:
+                        viol('pop-returns-other-data', dict(), 'pop of id %r (bundle %d) -> %r' % (ids[k], k, res), case)
+                        ok = False
+                        break
+                q = world.call('recv_bundle_get_queue')
+                want = sorted(str(ids[j]) for j in ids if ('pop', j) not in hist[:hist.index((op, k)) + 1])
+                if q[0] != 'ok' or sorted(str(x) for x in q[1]) != want:
+                    viol('receive-queue-differs', dict(), 'queue %r, announced and not popped %r' % (q, want), case)
+                    ok = False
+                    break
+            if ok and world.escaped:
+                viol('exception-escaped-callback', dict(exc=world.escaped[-1][0]), '%s: %s' % (world.escaped[-1][0], world.escaped[-1][2]), case)
+            keys.add(','.join(case['history']) + ('r' if reverse else ''))
+    return dict(name=params['name'], evaluations=count, nontrivial_keys=sorted(keys), violations=violations, known=[], samples=[])
+
+
 def scenarios(tier):
     out = []
+    out.append(dict(name='pop-histories', kind='enum', runner='run_pop_histories', params=dict(name='pop-histories'), weight=10))
     for part in range(6):
         name = 'codec-%d/6' % (part + 1)
         out.append(dict(name=name, kind='enum', runner='run_codec', params=dict(name=name, part=part, parts=6), weight=30))
